@@ -702,3 +702,21 @@ def o_nonfatal(case, obs):
         if kind(res) in FATAL:
             dead = True
     return None
+
+
+def o_inflight_failure(case, obs):
+    """C11 (family gen_panic_inflight): the handler of model 0 panics / sends to a dropped mailbox after having
+    sent to live models: the call must report that failure, whatever is still queued."""
+    if "inflight" not in case.get("tags", ()):
+        return None
+    want = "panic:0:" if "panic" in case["tags"] else "norecip:0"
+    for j, c in enumerate(case["cmds"]):
+        if c[0] == "pe" and c[1] == 0 and c[2] == 0:
+            res = obs[j + 1][0]
+            if res == "noinit":
+                return None
+            if not res.startswith(want):
+                return "cmd %d: model 0 %s after sending to live models; the call returned %s instead of %s..." % (
+                    j, "panics" if "panic" in case["tags"] else "sends to a dropped mailbox", res, want)
+            return None
+    return None
